@@ -718,6 +718,11 @@ class gear(trapezoidal):
 
     """
 
+    def solve(self, *args, **kwargs):
+        """new integration: forget the history of a previous one"""
+        self.__dict__.pop("_lastresidual", None)
+        return trapezoidal.solve(self, *args, **kwargs)
+
     def step(self, field, dtloc):
         """
 
